@@ -46,9 +46,9 @@ try:
     CG_SELECTORS = sorted(set(x for x in CG_SELECTORS if x and b"}" not in x and b":" not in x))
 except OSError:
     pass
-UIDS_WITH = [0, 1, 2, 33, 1000, 65534]
+UIDS_WITH = [0, 1, 2, 33, 1000, 65534, 4300, 4301, 4302, 4303, 4304]
 UIDS_WITHOUT = [4242, 70000, 2 ** 31, 1234567]
-GIDS_WITH = [0, 1, 2, 33, 1000, 65534]
+GIDS_WITH = [0, 1, 2, 33, 1000, 65534, 4300, 4301, 4304]
 GIDS_WITHOUT = [4243, 70001, 2 ** 31 + 1]
 VERSION = CONFIGURE = b""
 
@@ -117,18 +117,73 @@ def environ_for(c):
     return env
 
 
-def pw_name(uid):
-    try:
-        return pwd.getpwuid(uid).pw_name.encode()
-    except KeyError:
+# ---- system files with generated content (bind-mounted over /etc/passwd, /etc/group, /etc/hosts inside the drivers' private mount
+# namespace): the account database and the hosts file are inputs of the data sources just like the process state is
+PW, GR, PW_ALLNAMES, GR_ALLNAMES = {}, {}, set(), set()
+LONG_UIDS, LONG_GIDS = {4300, 4302}, {4300}
+HOSTS = b""
+SYSFILES = {}
+
+
+def make_sysfiles(rundir):
+    d = os.path.join(rundir, "sysfiles")
+    os.makedirs(d, exist_ok=True)
+    passwd = open("/etc/passwd", "rb").read()
+    if not passwd.endswith(b"\n"):
+        passwd += b"\n"
+    passwd += (b"longgecos:x:4300:4300:" + b"G" * 3000 + b":/home/l:/bin/sh\n" + b"emptyfields:x:4301:4301:::\n" +
+               b"n" * 200 + b":x:4302:4302:very long login name:/:/bin/sh\n" + b"dupfirst:x:4303:4303::/:/bin/sh\ndupsecond:x:4303:4303::/:/bin/sh\n" +
+               b"# a comment line\n\nlastline:x:4304:4304::/:/bin/sh")          # (no final newline)
+    group = open("/etc/group", "rb").read()
+    if not group.endswith(b"\n"):
+        group += b"\n"
+    group += (b"manymembers:x:4300:" + b",".join(b"member%04d" % i for i in range(400)) + b"\n" + b"g4301:x:4301:\n" + b"glast:x:4304:root")
+    import socket
+    hn = socket.gethostname().encode()
+    hosts = (b"127.0.0.1 localhost\n# " + hn + b".commented.example\n" + b"10.0.0.1 " + b" ".join(b"alias%03d.example.net" % i for i in range(90)) + b"\n" +
+             b"::1 ip6-localhost\n10.9.8.7\t" + hn.upper() + b".Corp.Example.ORG " + hn + b"\n10.9.8.8 other\t# trailing comment without newline")
+    for name, content in (("passwd", passwd), ("group", group), ("hosts", hosts)):
+        with open(os.path.join(d, name), "wb") as f:
+            f.write(content)
+        os.chmod(os.path.join(d, name), 0o644)
+        SYSFILES["/etc/" + name] = os.path.join(d, name)
+    for ln in passwd.split(b"\n"):
+        f = ln.split(b":")
+        if len(f) >= 7 and f[2].isdigit() and not ln.startswith(b"#"):
+            PW.setdefault(int(f[2]), f[0])
+            PW_ALLNAMES.add(f[0])
+    for ln in group.split(b"\n"):
+        f = ln.split(b":")
+        if len(f) >= 4 and f[2].isdigit() and not ln.startswith(b"#"):
+            GR.setdefault(int(f[2]), f[0])
+            GR_ALLNAMES.add(f[0])
+    global HOSTS
+    HOSTS = hosts
+
+
+def domain_model(hostname):
+    """what the hosts file says about <hostname>: text following '<hostname>.' (any case) up to the next blank, first line that has it,
+    '#' starts a comment; lines are read in pieces of at most 1023 bytes"""
+    if not hostname:
         return None
+    needle = hostname.lower() + b"."
+    for ln in HOSTS.split(b"\n"):
+        pieces = [ln[i:i + 1023] for i in range(0, max(len(ln), 1), 1023)]
+        for pc in pieces:
+            pc = pc.split(b"#", 1)[0]
+            i = pc.lower().find(needle)
+            if i >= 0:
+                tok = re.split(rb"[ \t\r\n]", pc[i:], 1)[0]
+                return tok[len(needle):]
+    return b"(none)"
+
+
+def pw_name(uid):
+    return PW.get(uid)
 
 
 def gr_name(gid):
-    try:
-        return grp.getgrgid(gid).gr_name.encode()
-    except KeyError:
-        return None
+    return GR.get(gid)
 
 
 def evaluate(env, c):
@@ -224,21 +279,28 @@ def evaluate(env, c):
     eq("tid_kernel", str(ktid).encode()); eq("tid", Q0[3])
     for name, ident in (("username", ru), ("eusername", eu)):
         n = pw_name(ident)
-        if n is not None:
+        if n is not None and ident in LONG_UIDS:
+            # an entry longer than the usual 1 KiB lookup buffer: the name, or an explicit failure text -- never another account's name
+            got = rec.get(name, b"")
+            expect(name, got == n or got[:200] == n[:200] or (got != b"" and got not in PW_ALLNAMES), n[:40] + b"... or a failure text")
+        elif n is not None:
             eq(name, n)
         else:
             # no passwd entry: any placeholder that is not the name of another existing account and mentions no wrong id
             got = rec.get(name, b"")
-            expect(name, got != b"" and all(got != p.pw_name.encode() for p in pwd.getpwall()) and
+            expect(name, got != b"" and got not in PW_ALLNAMES and
                    (not re.search(rb"\d+", got) or str(ident).encode() in got or str(ident - 2 ** 32).encode() in got),
                    "placeholder for uid %d without passwd entry" % ident)
     for name, ident in (("group", rg), ("egroup", eg)):
         n = gr_name(ident)
-        if n is not None:
+        if n is not None and ident in LONG_GIDS:
+            got = rec.get(name, b"")
+            expect(name, got == n or (got != b"" and got not in GR_ALLNAMES), n + b" or a failure text")
+        elif n is not None:
             eq(name, n)
         else:
             got = rec.get(name, b"")
-            expect(name, got != b"" and all(got != g_.gr_name.encode() for g_ in grp.getgrall()), "placeholder for gid %d without group entry" % ident)
+            expect(name, got != b"" and got not in GR_ALLNAMES, "placeholder for gid %d without group entry" % ident)
     # cwd
     cwd = Q0[4]
     if cwd.startswith(b"\x01ERR") or cwd.startswith(b"(unreachable)"):
@@ -246,6 +308,9 @@ def evaluate(env, c):
     else:
         expect("cwd", rec.get("cwd") == cwd[:L] or (len(cwd) > L and cwd.startswith(rec.get("cwd", b"\x00")) and L - 8 <= len(rec["cwd"]) <= L), cwd[:80] + b"...(%d bytes)" % len(cwd))
     eq("hostname", Q0[5])
+    dm = domain_model(Q0[5])
+    if dm is not None and len(Q0[5]) < 60:
+        eq("domain", dm[:L])
     # tty
     ttypath, ttyuid = Q0[6], Q0[7]
     if ttypath == b"\x01NOFD":
@@ -341,13 +406,7 @@ def evaluate(env, c):
 
 
 def pw_known(name):
-    if name is None:
-        return False
-    try:
-        pwd.getpwnam(name.decode())
-        return True
-    except (KeyError, UnicodeDecodeError):
-        return False
+    return name is not None and name in PW_ALLNAMES
 
 
 def classify(c):
@@ -434,12 +493,15 @@ def main():
     cfgh = open(os.path.join(b["src"], "config.h")).read()
     VERSION = re.search(r'#define PACKAGE_VERSION "([^"]*)"', cfgh).group(1).encode()
     CONFIGURE = re.search(r'#define SNOOPY_CONFIGURE_COMMAND "(.*)"\n', cfgh).group(1).encode().replace(b'\\"', b'"')
-    ctx.assumptions = ["ipaddr, domain and systemd_unit_name are only exercised (no oracle): the sandbox cannot shape utmp, /etc/hosts or "
-                       "systemd cgroups", "names for ids without passwd/group entry: any placeholder that is not another account's name",
+    ctx.assumptions = ["ipaddr and systemd_unit_name are only exercised (no oracle): the sandbox cannot shape utmp or systemd cgroups; "
+                       "/etc/passwd, /etc/group and /etc/hosts are generated files bind-mounted inside the drivers' mount namespace (3000-byte GECOS, "
+                       "200-byte login name, 400 group members, empty fields, duplicate uid, comment lines, no final newline; hosts: 1800-byte line, "
+                       "commented entry, mixed-case name, last line without newline)", "names for ids without passwd/group entry: any placeholder that is not another account's name",
                        "timestamp_ms / timestamp_us are the zero-padded 3- / 6-digit fraction of the second", "login is compared with libc's getlogin_r in the same state, then the documented SUDO_USER/LOGNAME fallback",
                        "states the sandbox refuses to construct (e.g. setresuid errors) are skipped and counted, never judged"]
     nw, per = (4, 350) if ctx.quick else (16, 2500)
-    pbt.run(ctx, {"ts-asan": b}, strategy, evaluate, classify, nw, per)
+    make_sysfiles(ctx.run.dir)
+    pbt.run(ctx, {"ts-asan": b}, strategy, evaluate, classify, nw, per, driver_kwargs={"binds": [(v, k) for k, v in sorted(SYSFILES.items())]})
     if not ctx.replay:
         interrupted_reads_phase(ctx, b)
     ctx.finish()
